@@ -721,6 +721,13 @@ def compute_reference(parallel=16):
     return ref
 
 
+def _in_session(es, op, arg):
+    if op.get("session") and hasattr(es, "__enter__"):
+        with es as s:
+            return s.solve(arg)
+    return es.solve(arg)
+
+
 class SolverMachine(Machine):
     NAME = "solver"
 
@@ -749,6 +756,8 @@ class SolverMachine(Machine):
             "text_faults": enabled_text, "sites": enabled_sites,
             "interrupts": rng.random() < 0.3,
             "sweep": (not fault_free) and rng.random() < 0.5,
+            # several `with` sessions on the same long-lived objects, in turn
+            "sessions": rng.random() < 0.35,
         }
 
     def start(self):
@@ -782,6 +791,14 @@ class SolverMachine(Machine):
         return sum(1 for t in toks if is_atom_token(t))
 
     def gen_op(self, rng):
+        op = self._gen_op(rng)
+        if op is not None and self.cfg.get("sessions") and rng.random() < 0.5:
+            # the long-lived instance is used as a context manager for this call
+            # (`with solver as s: s.solve(...)`): one session of many on the same object
+            op = dict(op, session=True)
+        return op
+
+    def _gen_op(self, rng):
         if self.queue:
             return self.queue.pop(0)
         cfg = self.cfg
@@ -878,7 +895,7 @@ class SolverMachine(Machine):
         # for this call and dropped after it
         arg = (lambda: Expression(expr)) if op.get("as_object") else (lambda: expr)
         InjectedFault.arm(fault)
-        got = observe(lambda: es.solve(arg()))
+        got = observe(lambda: _in_session(es, op, arg()))
         fired = InjectedFault.fired
         fresh = KINDS[kind][0]()
         InjectedFault.arm(fault)
@@ -910,7 +927,7 @@ class SolverMachine(Machine):
         if self.failed_before[kind]:
             self.stats.probe("canary_after_failed_call")
         InjectedFault.arm(None)
-        got = observe(lambda: es.solve(op["expr"]))
+        got = observe(lambda: _in_session(es, op, op["expr"]))
         fresh = observe(lambda: KINDS[kind][0]().solve(op["expr"]))
         ref = (REFERENCE or {}).get(kind, {}).get(op["expr"])
         if ref is not None and ref[0] != "harness" and tuple(got) != tuple(ref):
@@ -938,6 +955,8 @@ class SolverMachine(Machine):
 
     @classmethod
     def simplify(cls, op):
+        if op.get("session"):
+            yield dict(op, session=False)
         if op.get("op") != "solve":
             return
         if op.get("fault"):
